@@ -561,15 +561,18 @@ func (r *Run) Step(op SOp) *vlib.Violation {
 			return r.viol("C18", "player-count", "%d seats occupied, joins minus leaves = %d", cnt, want)
 		}
 	} else {
-		// keep the model honest for the other properties too: if it disagrees
-		// the history is abandoned (the disagreement is C18's to report)
+		// For C08 / C17 a disagreement between the seat list and the history is not
+		// reported (that is C18's business) but the history goes on: who can play is
+		// judged from what the history says (Run.playable), so a manager whose seats
+		// have been corrupted still has to put the button and the blinds where they
+		// belong.
 		for _, s := range r.M.GetSeats() {
 			who := ""
 			if s.Player != nil {
 				who = fmt.Sprint(s.Player)
 			}
 			if who != r.Occ[s.ID] || s.IsReserved != r.Res[s.ID] {
-				r.Aborted = true
+				r.Facts["seat-list-disagrees-with-history"] = true
 			}
 		}
 	}
